@@ -374,6 +374,17 @@ func (f *Func) reachTarget(
 				skip = true
 				argMap[graph.VertexID(out)] = v.Value
 			}
+
+		case *valueVertex:
+			// A named value that was given directly by the caller is used
+			// as-is. Without this the matching-name discount can make a
+			// conversion path cheaper than the exact value itself. Values
+			// that merely were produced earlier in this call are resolved
+			// again below, so that the name preference applies to them.
+			if v.Value.IsValid() && isDirectInput(g, out, root) {
+				skip = true
+				argMap[graph.VertexID(out)] = v.Value
+			}
 		}
 
 		// If we're skipping because we have this value already, there is
@@ -585,6 +596,18 @@ func (f *Func) reachTarget(
 
 	// Reached our goal
 	return argMap, nil
+}
+
+// isDirectInput returns true if v is an input of the call: inputs are the
+// vertices that depend directly on the input root.
+func isDirectInput(g *graph.Graph, v, root graph.Vertex) bool {
+	for _, out := range g.OutEdges(v) {
+		if out == root {
+			return true
+		}
+	}
+
+	return false
 }
 
 // call -- the unexported version of Call -- calls the function directly
